@@ -1243,11 +1243,13 @@ func (cx *c19Ctx) boolExpr(e *c19E, fi, lay int, repro c19Repro, allFlags bool) 
 func (cx *c19Ctx) boolEnum(n int, coqEvery int, allFlags bool) {
 	b := cx.b
 	total := b.alpha.count(n)
-	const blk = 1024
+	const blk = 2048
 	nblocks := int((total + blk - 1) / blk)
 	type res struct {
 		idx    int
-		packed []int
+		count  int
+		h1, h2 uint64
+		errs   bool
 		fi     int
 	}
 	out := make([]res, nblocks)
@@ -1269,7 +1271,14 @@ func (cx *c19Ctx) boolEnum(n int, coqEvery int, allFlags bool) {
 					idx := start + uint64(k)
 					e := b.alpha.unrank(n, idx)
 					repro := c19Repro{Inst: "bool", Flags: fi, Expr: e, Tree: e.Enc()}
-					r.packed = append(r.packed, cx.boolExpr(e, fi, int(idx%2), repro, allFlags))
+					p := cx.boolExpr(e, fi, int(idx%2), repro, allFlags)
+					// the observations travel as two running checksums over the packed values (truth vector with the
+					// optimizer + 256 * truth vector without), computed the same way in coq/Run/C19Run.v
+					v := uint64(p & 0xffff)
+					r.errs = r.errs || p >= 65536
+					r.h1 = (r.h1*65599 + v + 1) % 2147483647
+					r.h2 = (r.h2*31337 + v + 7) % 2147483647
+					r.count++
 				}
 				out[bi] = r
 			}
@@ -1281,32 +1290,18 @@ func (cx *c19Ctx) boolEnum(n int, coqEvery int, allFlags bool) {
 	close(work)
 	wg.Wait()
 	for bi, r := range out {
-		cx.sum.Evaluations += len(r.packed)
+		cx.sum.Evaluations += r.count
 		cx.sum.Count("bool_enumerated_by_operator_nodes", fmt.Sprint(n))
 		if coqEvery > 1 && bi%coqEvery != 0 {
 			continue
 		}
 		id := cx.nextID()
 		start := uint64(bi) * blk
-		// 16 expressions per number: 16 bits each (truth vector with the optimizer, then without), lowest first
-		var ps []string
-		errs := false
-		for i := 0; i < len(r.packed); i += 16 {
-			v := new(big.Int)
-			for j := i + 15; j >= i; j-- {
-				v.Lsh(v, 16)
-				if j < len(r.packed) {
-					v.Or(v, big.NewInt(int64(r.packed[j]&0xffff)))
-					errs = errs || r.packed[j] >= 65536
-				}
-			}
-			ps = append(ps, v.String())
-		}
 		first := b.alpha.unrank(n, start)
-		cx.sum.Cases[fmt.Sprint(id)] = map[string]any{"instance": "bool", "block": fmt.Sprintf("expressions %d..%d of the enumeration with %d operator nodes", start, start+uint64(len(r.packed))-1, n),
+		cx.sum.Cases[fmt.Sprint(id)] = map[string]any{"instance": "bool", "block": fmt.Sprintf("expressions %d..%d of the enumeration with %d operator nodes", start, start+uint64(r.count)-1, n),
 			"first_expression": b.inst.render(first, false).text, "flags": b.flags[r.fi],
-			"repro": c19Repro{Inst: "bool", Flags: r.fi, EnumN: n, Start: start, Count: len(r.packed)}, "signature": "bool | block"}
-		cx.add(fmt.Sprintf("(%d, CBoolEnum %s %d %d %d %s %s)", id, c19FlagsCoq(b.flags[r.fi]), n, start, len(r.packed), CoqBool(errs), CoqList(ps)), 5+len(r.packed)/3)
+			"repro": c19Repro{Inst: "bool", Flags: r.fi, EnumN: n, Start: start, Count: r.count}, "signature": "bool | block"}
+		cx.add(fmt.Sprintf("(%d, CBoolEnum %s %d %d %d %s %d %d)", id, c19FlagsCoq(b.flags[r.fi]), n, start, r.count, CoqBool(r.errs), r.h1, r.h2), 5+r.count/3)
 	}
 }
 
@@ -1476,6 +1471,9 @@ func (cx *c19Ctx) floatEnum(n int, coqEvery int, allFlags bool) {
 				text := f.inst.render(e, idx%2 == 1).text
 				fi := int(idx/7) % len(f.flags)
 				on, off, exact := cx.floatExpr(e, text, fi, allFlags, c19Repro{Inst: "float", Flags: fi, Text: text, Expr: e, Tree: e.Enc()})
+				if coqEvery > 1 && idx%uint64(coqEvery) != 0 {
+					on, off = "", ""
+				}
 				out[idx] = res{on, off, exact}
 			}
 		}()
@@ -1632,7 +1630,7 @@ func cmdC19(seed int64, tier, outDir string) {
 		if n >= 4 {
 			every = 200 // Go checks everything; Coq a sample of the blocks
 		}
-		cx.boolEnum(n, every, n <= 2 || tier == "thorough")
+		cx.boolEnum(n, every, n <= 2 || (tier == "thorough" && n <= 3))
 		enumTotal += int(cx.b.alpha.count(n))
 	}
 	for n := 0; n <= floatGoN; n++ {
@@ -1643,7 +1641,7 @@ func cmdC19(seed int64, tier, outDir string) {
 				every = 2003
 			}
 		}
-		cx.floatEnum(n, every, n <= 2 || tier == "thorough")
+		cx.floatEnum(n, every, n <= 2 || (tier == "thorough" && n <= 3))
 		enumTotal += int(cx.f.alpha.count(n))
 	}
 	phase("after_enumeration")
